@@ -79,6 +79,18 @@ def load_lock_module(sched_ref, kernel, pid):
     mod.__dict__["__builtins__"] = b
     mod.__file__ = LOCK_SRC
     exec(lock_code(), mod.__dict__)
+    # remember the scheduler step at which a "would block" refusal is decided (the exception object is created there; it reaches
+    # the caller only after the lock has unwound its own bookkeeping, which takes further steps)
+    base = getattr(mod, "AcquiringLockWouldBlockError", None)
+    if base is not None:
+        def _init(self, *a, **k):
+            Exception.__init__(self, *a, **k)
+            try:
+                self._verif_step = sched_ref().steps
+            except Exception:
+                self._verif_step = None
+
+        base.__init__ = _init
     return mod
 
 
@@ -177,6 +189,8 @@ def run_program(prog, prefix, opts=None):
     state = {}  # tid -> dict(cur_req, stack)
     failures = []
 
+    intervals = []  # every request from its start to the end of its release, in scheduler steps
+
     def run_node(vt, L, node, nid, stack):
         path, sh, bl, re, kids = node
         npath = os.path.normpath(path)
@@ -184,11 +198,14 @@ def run_program(prog, prefix, opts=None):
         recursive = ancestors_hold(stack, npath)
         st["cur"] = (npath, sh, bl, re, recursive)
         st["active"].append((npath, sh))
+        my_iv = {"tid": vt.tid, "path": npath, "sh": sh, "start": s.steps, "acq_end": None, "rel_start": None, "end": None}
+        intervals.append(my_iv)
         entered = False
         try:
             with L.path_lock(path, shared=sh, blocking=bl, reentrant=re):
                 entered = True
                 st["cur"] = None
+                my_iv["acq_end"] = s.steps
                 mon.enter(vt, npath, sh)
                 try:
                     s.point(("body", nid), None)
@@ -198,6 +215,7 @@ def run_program(prog, prefix, opts=None):
                         s.point(("body-end", nid), None)
                 finally:
                     mon.exit(vt, npath, sh)
+                    my_iv["rel_start"] = s.steps
                 st["releasing"] = nid
             st["releasing"] = None
             outcomes[(vt.tid,) + nid] = ("ok", node, recursive)
@@ -211,9 +229,39 @@ def run_program(prog, prefix, opts=None):
                 kind = f"OSError({e.errno})"
                 if e.errno == schedx.EDEADLK and not entered:
                     kind = "EDEADLK-inherent" if st.get("edeadlk_inherent") else "EDEADLK-spurious"
+            if not entered and not bl and kind in ("AcquiringThreadLevelLockWouldBlockError", "AcquiringProcessLevelLockWouldBlockError"):
+                # a request is refused without waiting only if it would have had to wait: some other thread must have a
+                # conflicting request in progress on the path (from its start to the end of its release - generous on purpose)
+                at = getattr(e, "_verif_step", None)
+
+                def overlaps(a, b):  # is [a, b] (b None = still open) alive at the step where the refusal was decided
+                    if at is None:
+                        return a is not None and (b is None or b >= my_iv["start"])
+                    return a is not None and a <= at and (b is None or b >= at)
+
+                # justified by: a conflicting request of another thread at any time since this one was made, or any request of
+                # another thread on the path that was being acquired or released in that time (the lock's own bookkeeping is
+                # busy then, and a request that must not wait may be turned away)
+                conflict = any(iv["tid"] != vt.tid and iv["path"] == npath and (
+                    ((not sh or not iv["sh"]) and overlaps(iv["start"], iv["end"]))
+                    or overlaps(iv["start"], iv["acq_end"]) or overlaps(iv["rel_start"], iv["end"])) for iv in intervals)
+                if not conflict:
+                    others = [(f"t{iv['tid']}", iv["path"], "shared" if iv["sh"] else "exclusive", iv["start"], iv["end"]) for iv in intervals
+                              if iv["tid"] != vt.tid]
+                    failures.append(f"non-blocking request {fmt_node(node)} of t{vt.tid}(P{vt.pid}) was refused ({kind}) although no other "
+                                    f"thread had a conflicting request in progress on {npath} since it was made (requests of others: {others})")
             outcomes[(vt.tid,) + nid] = (("exit-error:" if entered else "") + kind, node, recursive)
         finally:
             st["active"].pop()
+            my_iv["end"] = s.steps
+            # once a request is over, the process keeps the file locked exclusively only if another of its threads still has an
+            # exclusive request in progress ("any number may hold it shared together" - also across processes)
+            if not s.abort and kernel.locks.get(npath, {}).get(vt.pid) == "EX":
+                pids = {t.tid: t.pid for t in s.threads}
+                if not any(pids.get(t2) == vt.pid and any(p2 == npath and not sh2 for (p2, sh2) in st2["active"])
+                           for t2, st2 in state.items()):
+                    failures.append(f"after {fmt_node(node)} of t{vt.tid}(P{vt.pid}) ended, process P{vt.pid} still holds {npath} exclusively "
+                                    f"although none of its threads has an exclusive request in progress")
 
     def make_body(pid, body):
         def fn(vt):
@@ -379,6 +427,12 @@ def programs(tier):
         for o in others:
             out.append(("nest-2t", [(0, [n]), (0, [o])], 2, {}))
             out.append(("nest-2p", [(0, [n]), (1, [o])], 2, {}))
+    # (c3) an upgrade that is refused without waiting and then repeated with waiting, while another process comes and goes
+    retry = R(reentrant=True, kids=[W(blocking=False, reentrant=True), W(reentrant=True)])
+    out.append(("upgrade-retry-2p", [(0, [retry]), (1, [R(), R(blocking=False)])], 2, {}))
+    out.append(("upgrade-retry-2p", [(0, [retry]), (1, [R(), R()])], 2, {}))
+    out.append(("upgrade-retry-2p", [(0, [retry]), (1, [R(blocking=False), W(blocking=False)])], 2, {}))
+    out.append(("upgrade-retry-2t", [(0, [retry]), (0, [R(), R(blocking=False)])], 2, {}))
     # (c2) the same file under two spellings of its path (p and ./p): one lock, whatever the spelling
     al = "./p"
     for o in others:
